@@ -81,6 +81,42 @@ var acts = map[string]actInfo{
 	"s:kz": {'K', false, false, `var t victim.T; _ = t`},
 	"s:ka": {'K', false, false, `t := [2]victim.T{}; _ = t`},
 	"s:kc": {'A', false, false, `p := (*My)(victim.GetPt()); p.N = 42`},
+	// --- composite literals / make / conversions of every victim-declared composite kind
+	"s:ku": {'K', false, false, `t := victim.T{1, nil}; _ = t`},
+	"s:ke": {'K', false, false, `t := victim.T{}; _ = t`},
+	"s:qm": {'K', false, false, `v := victim.Voucher{"mallory": 1000000}; _ = v`},
+	"s:qn": {'K', false, false, `v := victim.Voucher{}; _ = v`},
+	"s:qk": {'K', false, false, `v := make(victim.Voucher); _ = v`},
+	"s:ql": {'K', false, false, `v := victim.Ints{1, 2}; _ = v`},
+	"s:qe": {'K', false, false, `v := victim.Ints{}; _ = v`},
+	"s:qi": {'K', false, false, `v := victim.Ints{2: 5}; _ = v`},
+	"s:qs": {'K', false, false, `v := make(victim.Ints, 2); _ = v`},
+	"s:qa": {'K', false, false, `v := victim.Tri{1, 2, 3}; _ = v`},
+	"s:qb": {'K', false, false, `v := victim.Tri{}; _ = v`},
+	"s:qj": {'K', false, false, `v := victim.Tri{1: 5}; _ = v`},
+	"s:qp": {'K', false, false, `v := &victim.Voucher{"m": 1}; _ = v`},
+	"s:qo": {'K', false, false, `v := new(victim.Voucher); _ = v`},
+	// nested inside a literal of an attacker type / of an anonymous composite
+	"s:qw": {'K', false, false, `w := Wrap{V: victim.Voucher{"m": 1}}; _ = w`},
+	"s:qx": {'K', false, false, `w := Wrap{T: victim.T{N: 1}}; _ = w`},
+	"s:qt": {'K', false, false, `w := []victim.T{{N: 1}}; _ = w`},
+	"s:qu": {'K', false, false, `w := map[string]victim.T{"a": {N: 1}}; _ = w`},
+	"s:qv": {'K', false, false, `w := []victim.Voucher{{"m": 1}}; _ = w`},
+	"s:qg": {'K', false, false, `w := [1]victim.Ints{{1}}; _ = w`},
+	// passed straight into a victim function that trusts its own type
+	"s:qr": {'K', false, false, `_ = victim.Redeem(victim.Voucher{"mallory": 1000000})`},
+	"s:qy": {'K', false, false, `_ = victim.TakeT(victim.T{N: 5})`},
+	"s:qz": {'K', false, false, `_ = victim.SumInts(victim.Ints{1, 2})`},
+	"s:qf": {'K', false, false, `_ = victim.SumTri(victim.Tri{1, 2, 3})`},
+	// conversion of an attacker-built value to the victim's type
+	"s:qc": {'K', false, false, `v := victim.Voucher(map[string]int{"m": 1}); _ = v`},
+	"s:qd": {'K', false, false, `v := victim.Ints([]int{1}); _ = v`},
+	"s:qh": {'K', false, false, `_ = victim.Redeem(map[string]int{"mallory": 1})`},
+	// zero values of the declared composite types
+	"s:zv": {'K', false, false, `var v victim.Voucher; _ = victim.Redeem(v)`},
+	"s:zt": {'K', false, false, `var v victim.Tri; _ = victim.SumTri(v)`},
+	"s:zi": {'K', false, false, `var v victim.Ints; _ = victim.SumInts(v)`},
+	"s:zw": {'K', false, false, `w := Wrap{}; _ = victim.TakeT(w.T)`},
 	// --- library (/p/) top-level functions chosen by the attacker do the write
 	"k:px": {'A', false, false, `lib.PokeInt(victim.GetPX())`},
 	"k:bn": {'A', false, false, `lib.Poke(victim.GetPBx())`},
@@ -229,6 +265,9 @@ func render(p prog, pkgName string) string {
 	}
 	if strings.Contains(all, "(*My)") {
 		sb.WriteString("type My victim.T\n\n")
+	}
+	if strings.Contains(all, "Wrap{") {
+		sb.WriteString("type Wrap struct {\n\tV victim.Voucher\n\tT victim.T\n\tI victim.Ints\n}\n\n")
 	}
 	if strings.Contains(all, "Hold{") {
 		sb.WriteString("type Hold struct{ R realm }\n\n")
